@@ -19,7 +19,7 @@ def execute(c):
     ev = {"c": c, "outcome": "ok", "o": {"roi_src": [0, 0, 0, 0], "roi_dst": [0, 0, 0, 0], "paste_ok": False, "shrink": 1, "scale": 0}}
     try:
         _, _, rr = plan(c)
-        if "den" in c:
+        if "den" in c or c.get("xcrs"):
             ev["o"] = {"roi_src": roi4(rr.roi_src), "roi_dst": roi4(rr.roi_dst), "paste_ok": bool(rr.paste_ok),
                        "shrink": int(rr.read_shrink) if float(rr.read_shrink).is_integer() else -1, "scale": 0}
             return ev
@@ -46,8 +46,8 @@ def run(ctx):
     cases.sort(key=lambda c: json.dumps(c, sort_keys=True))
     total = len(cases)
     ax = [c for c in cases if "ns" in c]
-    big = [c for c in cases if "den" in c]
-    cases = [c for c in cases if "den" not in c]
+    big = [c for c in cases if "den" in c or c.get("xcrs")]
+    cases = [c for c in cases if "den" not in c and not c.get("xcrs")]
     rot = [c for c in cases if "A" in c and c["A"][1] != 0]
     st = [c for c in cases if "A" in c and c["A"][1] == 0]
     cases = ctx.subsample(st, 12000 if q else 250000) + ctx.subsample(rot, 1500 if q else 4000) + ctx.subsample(ax, 6000 if q else 10 ** 6) + big
